@@ -218,6 +218,16 @@ def scan_helper(ctx, key, name, want_flag, mutating):
                 ctx.violate(key, p, '%s looks at the wait list under the wrong kind flag' % name)
             saw_true = saw_false = True
             continue
+        if r is not None and r[0] == 'call' and r[2] == 'std::option::Option::is_some' and r[3] and mutating:
+            # `position(..).and_then(|i| wait_list.remove(i)).is_some()`: on the path where the position was found, remove(i)
+            # of a valid index yields Some
+            inner = r[3][0]
+            if inner[0] in ('ref', 'rawptr') and len(inner) > 2 and inner[2] is not None:
+                inner = inner[2]
+            from mir import ci_field_ref as _cfr
+            if inner[0] == 'call' and inner[2] == 'std::collections::VecDeque::remove' and inner[3] and _cfr(inner[3][0]) == 'wait_list' \
+                    and any(e.name == 'BR' and e.data['label'] == 'discr:std::iter::Iterator::position' and e.data['outcome'] == 'Some' for e in evs):
+                r = ('const', 'bool', '1')
         if not (r is not None and r[0] == 'const' and r[1] == 'bool'):
             ctx.violate(key, p, '%s returns a non-constant: %s' % (name, fmt(r)))
             continue
@@ -432,6 +442,42 @@ def h6(ctx):
                 ctx.violate(key, p, 'terminate_signals changes other channel state')
             continue
         fe = [e for e in evs if e.name == 'CALL' and e.data['callee'] == 'std::iter::Iterator::for_each']
+        if [m.name for m in muts] == ['WL.drain_all']:
+            # `for t in wait_list.drain(..) { t.terminate() }` or `wait_list.drain(..).for_each(|t| t.terminate())`: every entry
+            # leaves the list; each one must be terminated (an entry the loop skips is dropped un-woken by the Drain)
+            dv = muts[0].data['res']
+            if any(e.name == 'WR' or e.name.startswith('Q.') for e in evs):
+                ctx.violate(key, p, 'terminate_signals changes other channel state')
+            if fe:
+                a = fe[0].data['args']
+                src = a[0] if a else None
+                if src is not None and src[0] in ('ref', 'rawptr') and len(src) > 2 and src[2] is not None:
+                    src = src[2]
+                clo = a[1] if len(a) > 1 else None
+                if len(fe) == 1 and src == dv and clo is not None and clo[0] == 'agg' and clo[1] == 'closure' and closure_terminates_arg(ctx, clo):
+                    some_term = True
+                else:
+                    ctx.violate(key, p, 'terminate_signals: drain(..).for_each is not given `|t| t.terminate()` on the drained list')
+                continue
+            nexts = [e for e in evs if e.name == 'CALL' and e.data['callee'] == 'std::iter::Iterator::next' and contains(e.data['args'], dv)]
+            terms = [e for e in evs if e.name == 'SIGTERM']
+            somes = []
+            for n in nexts:
+                got = [x for x in evs if x.name == 'BR' and x.data['label'] == 'iter_next' and x.idx > n.idx]
+                if got and got[0].data['outcome'] == 'Some':
+                    somes.append(n)
+            lastbr = [e for e in evs if e.name == 'BR' and e.data['label'] == 'iter_next']
+            if not nexts or not lastbr or lastbr[-1].data['outcome'] != 'None':
+                ctx.violate(key, p, 'the drained wait list is not iterated to its end (entries would be dropped without being woken)')
+            if len(terms) != len(somes):
+                ctx.violate(key, p, '%d entries drained but %d terminated' % (len(somes), len(terms)))
+            for n, t_ in zip(somes, terms):
+                some_term = True
+                pay = ('field', ('downcast', n.data['res'], 'Some'), '0')
+                a0 = t_.data['args'][0]
+                if a0 != pay and not (a0[0] in ('ref', 'rawptr') and len(a0) > 2 and a0[2] == pay):
+                    ctx.violate(key, p, 'terminate() applied to something other than the drained entry', at=t_.at)
+            continue
         if fe and [m.name for m in muts] == ['WL.clear']:
             # `wait_list.iter().for_each(|t| t.terminate()); wait_list.clear()`
             a = fe[0].data['args']
@@ -561,7 +607,7 @@ def mentions_fields(b, names):
 
 INSERT = {'push_back': 'back', 'push_front': 'front'}
 REMOVE = {'pop_front': 'front', 'pop_back': 'back', 'drain_all': 'front'}  # drain_all: the whole buffer, oldest first
-ORDER_PRESERVING = {'remove', 'clear', 'retain', 'truncate'}
+ORDER_PRESERVING = {'remove', 'clear', 'retain', 'truncate', 'drain_all'}
 READONLY = {'len', 'is_empty', 'iter', 'capacity', 'front', 'back', 'get', 'contains', 'as_slices', 'exhausted'}
 
 
